@@ -157,6 +157,13 @@ where
     }
 }
 
+#[cfg(bma400_verif)]
+impl IntConfig {
+    pub(crate) fn verif_visit(&mut self, f: &mut dyn FnMut(u8, u8) -> Option<u8>) {
+        verif_visit_fields!(self, f, int_config0: IntConfig0, int_config1: IntConfig1);
+    }
+}
+
 #[cfg(test)]
 mod tests {
     use super::*;
